@@ -105,13 +105,24 @@ pub(crate) fn tf_of(s: &LogSpecification) -> u8 {
 #[kani::unwind(6)]
 #[kani::stub(verif_support::reexp::catch_unwind, verif_support::stub_cu)]
 fn c02_enabled_sorted() {
+    enabled_sorted_case::<3, 4>();
+}
+// @verif prop=C02 tier=thorough timeout=900 bounds=2-named-filters(len1..4,alphabet{a,b,:})+optional-default,target<=6-bytes,pre-sorted
+// The same with names up to 4 bytes (room for a "::" inside a name) and targets up to 6 bytes.
+#[kani::proof]
+#[kani::unwind(8)]
+#[kani::stub(verif_support::reexp::catch_unwind, verif_support::stub_cu)]
+fn c02_enabled_sorted_deep() {
+    enabled_sorted_case::<4, 6>();
+}
+fn enabled_sorted_case<const N: usize, const T: usize>() {
     vs::cell_set(0, 0);
-    let b1 = any_bytes::<3>();
-    let b2 = any_bytes::<3>();
-    let bt = any_bytes::<4>();
-    let len1 = any_len(3);
-    let len2 = any_len(3);
-    let lent = any_len(4);
+    let b1 = any_bytes::<N>();
+    let b2 = any_bytes::<N>();
+    let bt = any_bytes::<T>();
+    let len1 = any_len(N);
+    let len2 = any_len(N);
+    let lent = any_len(T);
     kani::assume(len1 >= len2 && len2 >= 1);
     let n1 = std::str::from_utf8(&b1[..len1]).unwrap();
     let n2 = std::str::from_utf8(&b2[..len2]).unwrap();
@@ -242,4 +253,321 @@ fn c02_max_level() {
     kani::cover!(n == 0, "empty spec");
     kani::cover!(n == 3 && maxr == 5, "three filters");
     std::mem::forget(spec);
+}
+
+// ------------------------------------------------------------------------------------------------
+// C17 (parser clause): LogSpecification::parse on symbolic short strings. The error *texts* are not
+// the subject: `format!` is a non-empty marker (the parser decides Ok/Err by the emptiness of the
+// collected error text, so the marker must not be empty).
+fn stub_format_nonempty(_a: std::fmt::Arguments<'_>) -> String {
+    String::from("E")
+}
+fn lower(b: u8) -> u8 {
+    if b >= b'A' && b <= b'Z' { b + 32 } else { b }
+}
+fn ieq(s: &[u8], w: &[u8]) -> bool {
+    if s.len() != w.len() {
+        return false;
+    }
+    let mut i = 0;
+    while i < w.len() {
+        if lower(s[i]) != w[i] {
+            return false;
+        }
+        i += 1;
+    }
+    true
+}
+// @verif prop=C17 tier=probe timeout=600 bounds=level-word<=5-symbolic-ASCII-bytes(letters-any-case,digits,space)
+// parse_level_filter accepts exactly the six level words in any letter case and maps each to its level; everything else is an error. No panic.
+#[kani::proof]
+#[kani::unwind(8)]
+#[kani::stub(verif_support::reexp::catch_unwind, verif_support::stub_cu)]
+#[kani::stub(std::fmt::format, stub_format_nonempty)]
+fn c17_parse_level_filter_kernel() {
+    let b: [u8; 5] = kani::any();
+    let len: usize = kani::any();
+    kani::assume(len <= 5);
+    let mut i = 0;
+    while i < 5 {
+        kani::assume(b[i] >= 0x20 && b[i] < 0x7f);
+        i += 1;
+    }
+    let s = vs::str_from(&b[..len]);
+    let r = parse_level_filter(s);
+    let want = if ieq(&b[..len], b"off") {
+        Some(LevelFilter::Off)
+    } else if ieq(&b[..len], b"error") {
+        Some(LevelFilter::Error)
+    } else if ieq(&b[..len], b"warn") {
+        Some(LevelFilter::Warn)
+    } else if ieq(&b[..len], b"info") {
+        Some(LevelFilter::Info)
+    } else if ieq(&b[..len], b"debug") {
+        Some(LevelFilter::Debug)
+    } else if ieq(&b[..len], b"trace") {
+        Some(LevelFilter::Trace)
+    } else {
+        None
+    };
+    match (&r, want) {
+        (Ok(l), Some(w)) => assert!(frank(*l) == frank(w)),
+        (Err(_), None) => {}
+        _ => assert!(false, "parse_level_filter disagrees with the reference"),
+    }
+    kani::cover!(want.is_some() && b[0] == b'W', "level word in upper case");
+    kani::cover!(want.is_none() && len == 4, "four bytes that are no level word");
+    std::mem::forget(r);
+}
+
+// Contract of parse_level_filter for the parse harness below (the real one is decided by the kernel
+// above): the single letter "w" (any case) is the level word Warn, everything else is unknown.
+fn stub_plf<S: AsRef<str>>(s: S) -> Result<LevelFilter, FlexiLoggerError> {
+    let b = s.as_ref().as_bytes();
+    if b.len() == 1 && (b[0] == b'w' || b[0] == b'W') {
+        Ok(LevelFilter::Warn)
+    } else {
+        Err(FlexiLoggerError::LevelFilter(String::from("E")))
+    }
+}
+const P_ALPHA: [u8; 6] = [b'a', b'w', b'=', b',', b'/', b' '];
+fn is_sp(b: u8) -> bool {
+    b == b' '
+}
+// reference trim (ASCII space is the only whitespace of the alphabet)
+fn rtrim(s: &[u8]) -> &[u8] {
+    let mut a = 0;
+    let mut z = s.len();
+    while a < z && is_sp(s[a]) {
+        a += 1;
+    }
+    while z > a && is_sp(s[z - 1]) {
+        z -= 1;
+    }
+    &s[a..z]
+}
+fn has_sp(s: &[u8]) -> bool {
+    let mut i = 0;
+    while i < s.len() {
+        if is_sp(s[i]) {
+            return true;
+        }
+        i += 1;
+    }
+    false
+}
+// Reference parser for one comma-separated part (already trimmed, non-empty). Returns
+// (is_error, Some((has_name, name_is_w.., level_rank))) - the filter it contributes, if any.
+// kind: 0 = nothing (error), 1 = default level Warn, 2 = module `name` at Trace, 3 = module `name` at Warn
+fn ref_part(p: &[u8]) -> (bool, u8, usize, usize) {
+    // positions of '='
+    let mut eqs = 0;
+    let mut first = 0;
+    let mut i = 0;
+    while i < p.len() {
+        if p[i] == b'=' {
+            if eqs == 0 {
+                first = i;
+            }
+            eqs += 1;
+        }
+        i += 1;
+    }
+    if eqs >= 2 {
+        return (true, 0, 0, 0);
+    }
+    if eqs == 0 {
+        // p is trimmed: whitespace inside is an error
+        if has_sp(p) {
+            return (true, 0, 0, 0);
+        }
+        if p.len() == 1 && p[0] == b'w' {
+            return (false, 1, 0, 0);
+        }
+        return (false, 2, 0, p.len());
+    }
+    // name '=' level
+    let n = rtrim(&p[..first]);
+    let l = rtrim(&p[first + 1..]);
+    // offsets of n inside p
+    let mut a = 0;
+    while a < first && is_sp(p[a]) {
+        a += 1;
+    }
+    if has_sp(n) {
+        return (true, 0, 0, 0);
+    }
+    if l.is_empty() {
+        return (false, 2, a, a + n.len());
+    }
+    if l.len() == 1 && l[0] == b'w' {
+        return (false, 3, a, a + n.len());
+    }
+    (true, 0, 0, 0)
+}
+fn parse_case<const N: usize>() {
+    let idx: [u8; N] = kani::any();
+    let mut b = [0u8; N];
+    let mut i = 0;
+    while i < N {
+        kani::assume(idx[i] < 6);
+        b[i] = P_ALPHA[idx[i] as usize];
+        i += 1;
+    }
+    let len: usize = kani::any();
+    kani::assume(len <= N);
+    let s = vs::str_from(&b[..len]);
+    let r = LogSpecification::parse(s);
+    // ---- reference
+    let inp = &b[..len];
+    let mut slashes = 0;
+    let mut slash_at = len;
+    let mut i = 0;
+    while i < len {
+        if inp[i] == b'/' {
+            if slashes == 0 {
+                slash_at = i;
+            }
+            slashes += 1;
+        }
+        i += 1;
+    }
+    let mut want_err = false;
+    let mut want_n = 0usize; // number of filters the carried / returned spec holds
+    let mut want_default = false;
+    let mut named_warn = 0usize;
+    let mut named_trace = 0usize;
+    let mut empty_name = false;
+    if slashes >= 2 {
+        want_err = true;
+    } else {
+        let mods = &inp[..slash_at];
+        let mut start = 0;
+        let mut i = 0;
+        while i <= mods.len() {
+            if i == mods.len() || mods[i] == b',' {
+                let part = rtrim(&mods[start..i]);
+                if !part.is_empty() {
+                    let (e, kind, na, nz) = ref_part(part);
+                    if e {
+                        want_err = true;
+                    } else {
+                        want_n += 1;
+                        if kind == 1 {
+                            want_default = true;
+                        } else {
+                            if nz == na {
+                                empty_name = true;
+                            }
+                            if kind == 2 {
+                                named_trace += 1;
+                            } else {
+                                named_warn += 1;
+                            }
+                        }
+                    }
+                }
+                start = i + 1;
+            }
+            i += 1;
+        }
+    }
+    // a part like "=w" names the empty module: what that means is not specified - not decided
+    kani::assume(!empty_name);
+    // ---- compare: Ok/Err exactly when some part is malformed; the spec (returned or carried by
+    // the error) holds exactly the well-formed parts
+    let spec: &LogSpecification = match &r {
+        Ok(sp) => {
+            assert!(!want_err);
+            sp
+        }
+        Err(FlexiLoggerError::Parse(_, sp)) => {
+            assert!(want_err);
+            sp
+        }
+        Err(_) => {
+            assert!(false, "unexpected error kind");
+            unreachable!()
+        }
+    };
+    let mf = spec.module_filters();
+    assert!(mf.len() == want_n);
+    let mut got_default = false;
+    let mut got_warn = 0usize;
+    let mut got_trace = 0usize;
+    let mut i = 0;
+    while i < mf.len() {
+        match (&mf[i].module_name, mf[i].level_filter) {
+            (None, LevelFilter::Warn) => got_default = true,
+            (Some(_), LevelFilter::Warn) => got_warn += 1,
+            (Some(_), LevelFilter::Trace) => got_trace += 1,
+            _ => assert!(false, "unexpected filter"),
+        }
+        i += 1;
+    }
+    assert!(got_default == want_default);
+    assert!(got_warn == named_warn && got_trace == named_trace);
+    kani::cover!(want_err && want_n > 0, "malformed part next to a well-formed one");
+    kani::cover!(!want_err && want_n == 2, "two well-formed parts");
+    kani::cover!(slashes >= 2, "too many slashes");
+    std::mem::forget(r);
+}
+// @verif prop=C17 tier=probe timeout=900 bounds=all-strings<=3-bytes-over{a,w,=,comma,slash,space},level-word-by-contract("w")
+// LogSpecification::parse never panics, returns Err exactly when some part is malformed (too many '/', more than one '=', whitespace inside a name, unknown level), and the specification returned or carried by the error holds exactly the well-formed parts.
+#[kani::proof]
+#[kani::unwind(8)]
+#[kani::stub(verif_support::reexp::catch_unwind, verif_support::stub_cu)]
+#[kani::stub(std::fmt::format, stub_format_nonempty)]
+#[kani::stub(parse_level_filter, stub_plf)]
+fn c17_parse_len3() {
+    parse_case::<3>();
+}
+// @verif prop=C17 tier=probe timeout=1500 bounds=all-strings<=5-bytes-over{a,w,=,comma,slash,space}
+// The same for strings up to 5 bytes.
+#[kani::proof]
+#[kani::unwind(10)]
+#[kani::stub(verif_support::reexp::catch_unwind, verif_support::stub_cu)]
+#[kani::stub(std::fmt::format, stub_format_nonempty)]
+#[kani::stub(parse_level_filter, stub_plf)]
+fn c17_parse_len5() {
+    parse_case::<5>();
+}
+
+// ------------------------------------------------------------------------------------------------
+// C02: a specification assembled with LogSpecBuilder (insert order arbitrary, one module
+// overwritten, one removed) decides like the reference for the resulting set of filters.
+// @verif prop=C02,C05 tier=probe timeout=600 bounds=builder{default,a(set-twice),ab},levels-symbolic,target<=2-bytes-over{a,b}
+// LogSpecBuilder: default + modules "a" (set twice, last wins) and "ab" with symbolic levels; build() == reference longest-prefix decision for every level and every target up to 2 bytes over {a,b}.
+#[kani::proof]
+#[kani::unwind(8)]
+#[kani::stub(verif_support::reexp::catch_unwind, verif_support::stub_cu)]
+#[kani::stub(std::hash::RandomState::new, verif_support::stub_random_state)]
+fn c02_builder_spec() {
+    let (ld, la0, la, lab) = (any_filter(), any_filter(), any_filter(), any_filter());
+    let mut bld = LogSpecBuilder::new();
+    bld.module("ab", lab);
+    bld.module("a", la0);
+    bld.default(ld);
+    bld.module("a", la);
+    let spec = bld.build();
+    let tb: [u8; 2] = kani::any();
+    let tl: usize = kani::any();
+    kani::assume(tl <= 2);
+    kani::assume((tb[0] == b'a' || tb[0] == b'b') && (tb[1] == b'a' || tb[1] == b'b'));
+    let target = vs::str_from(&tb[..tl]);
+    let level = any_level();
+    let lf = if tl >= 2 && tb[0] == b'a' && tb[1] == b'b' {
+        lab
+    } else if tl >= 1 && tb[0] == b'a' {
+        la
+    } else {
+        ld
+    };
+    assert!(spec.enabled(level, target) == (lrank(level) <= frank(lf)));
+    // the facade gate derived from the spec admits everything the spec enables
+    assert!(frank(spec.max_level()) >= frank(la) && frank(spec.max_level()) >= frank(lab) && frank(spec.max_level()) >= frank(ld));
+    kani::cover!(frank(la) != frank(la0), "module overwritten with another level");
+    kani::cover!(tl == 1 && tb[0] == b'b', "unrelated target falls back to the default");
+    std::mem::forget(spec);
+    std::mem::forget(bld);
 }
